@@ -343,11 +343,129 @@ func c06Prefixes() [][]c06Tok {
 	}
 }
 
+// c06Paste is a case of the paste-pass campaign: Host tokens with one PASTE
+// (K = -2) whose macro body is Body; the macro is written after the host.
+type c06Paste struct {
+	Host []c06Tok `json:"host"`
+	Body []c06Tok `json:"body"`
+}
+
+// c06PasteCheck: when scanning and the macro checks pass, the tree after
+// expansion must be the reference resolution of the expanded token sequence.
+func c06PasteCheck(c c06Paste, info *vlib.Info) (f *vlib.Failure) {
+	// render: host (PASTE @mac at the marked place), then MACRO @mac ( body )
+	var sb strings.Builder
+	var hostIdx []int
+	for i, t := range c.Host {
+		hostIdx = append(hostIdx, sb.Len())
+		if t.K == -2 {
+			sb.WriteString("PASTE @mac\n")
+			continue
+		}
+		if t.K < 0 {
+			sb.WriteString(")\n")
+			continue
+		}
+		k := c06Kinds[t.K]
+		if strings.Contains(k.line, "%d") {
+			sb.WriteString(fmt.Sprintf(k.line, i))
+		} else {
+			sb.WriteString(k.line)
+		}
+		sb.WriteString("\n")
+		if t.X {
+			sb.WriteString("(\n")
+		}
+		if k.body != "" {
+			sb.WriteString(fmt.Sprintf(k.body, i) + "\n")
+		}
+	}
+	sb.WriteString("MACRO @mac\n(\n")
+	var bodyIdx []int
+	for i, t := range c.Body {
+		bodyIdx = append(bodyIdx, sb.Len())
+		if t.K < 0 {
+			sb.WriteString(")\n")
+			continue
+		}
+		k := c06Kinds[t.K]
+		n := 100 + i
+		if strings.Contains(k.line, "%d") {
+			sb.WriteString(fmt.Sprintf(k.line, n))
+		} else {
+			sb.WriteString(k.line)
+		}
+		sb.WriteString("\n")
+		if t.X {
+			sb.WriteString("(\n")
+		}
+		if k.body != "" {
+			sb.WriteString(fmt.Sprintf(k.body, n) + "\n")
+		}
+	}
+	sb.WriteString(")\n")
+	src := sb.String()
+	// expanded sequence
+	var exp []c06Tok
+	var expIdx []int
+	for i, t := range c.Host {
+		if t.K == -2 {
+			exp = append(exp, c.Body...)
+			expIdx = append(expIdx, bodyIdx...)
+			continue
+		}
+		exp = append(exp, t)
+		expIdx = append(expIdx, hostIdx[i])
+	}
+	ref := c06Reference(exp, expIdx, len(src))
+	info.NonTrivial = len(c.Body) >= 2
+	info.Class("paste-pass")
+	info.Sample = map[string]any{"source": src}
+	defer func() {
+		if r := recover(); r != nil {
+			f = vlib.Failf("panic", "panic %v on %q", r, src)
+		}
+	}()
+	core1 := core.NewJApiCore(fs.NewFile("root.jst", []byte(src)), core.WithFixedSeedForRegex())
+	je := core1.ValidateJAPI()
+	dwp := core1.VerifDirectivesWithPastes()
+	if dwp == nil {
+		info.Class("paste-pass:not-reached")
+		return nil // rejected before expansion (scanning or macro checks)
+	}
+	cls := ""
+	if je != nil {
+		cls = c06Classify(je.Msg)
+	}
+	if ref.reject {
+		info.Class("paste-pass:reference-rejects")
+		// the body does not fit where it is pasted (or leaves a parenthesis open):
+		// the expansion must be refused as an incorrect context
+		if je == nil {
+			return vlib.Failf("paste-verdict", "source %q: the expanded sequence has no valid resolution (%s) but the document is accepted", src, ref.class)
+		}
+		return nil
+	}
+	if cls == "ctx" || cls == "ctxpath" {
+		return vlib.Failf("paste-verdict", "source %q: every directive of the expanded sequence has a place, but the library rejects with %q", src, je.Msg)
+	}
+	info.Class("paste-pass:tree-compared")
+	all := append([]*directive.Directive{}, dwp...)
+	var a, b strings.Builder
+	c06DumpRef(ref.roots, &a)
+	c06DumpAct(all, nil, &b)
+	// explicit flags of pasted directives are kept by the copy; compare as is
+	if a.String() != b.String() {
+		return vlib.Failf("paste-tree", "source %q\n  want %s\n  got  %s\n  (later-stage error: %v)", src, a.String(), b.String(), je)
+	}
+	return nil
+}
+
 func TestC06(t *testing.T) {
 	h := vlib.New(t, "C06", "exploration",
 		"sequences of directive kinds (29 tree kinds, HTTP methods with and without their own path), each optionally followed by '(', and ')' tokens: every sequence up to the tier's length after each of 17 context-opening prefixes, plus rapid-drawn sequences up to 25 tokens; non-trivial = the reference walk leaves >= 2 levels, or meets a ')', or places a directive after a childless one, or rejects; distinct by sequence",
 		"the admissibility relation (which kind admits which) is read from the library's own table: the property is parametric in it", "the directive tree is read through the verif accessor hooks")
-	h.Require("tree", "reject:ctx", "reject:ctxpath", "reject:noctx", "reject:unclosed")
+	h.Require("tree", "reject:ctx", "reject:ctxpath", "reject:noctx", "reject:unclosed", "paste-pass:tree-compared", "paste-pass:reference-rejects")
 	alpha := c06Alphabet()
 	prefixes := c06Prefixes()
 	maxLen := h.Pick(2, 3)
@@ -377,6 +495,61 @@ func TestC06(t *testing.T) {
 			}
 		}
 	}, c06Check)
+
+	// the paste pass: a macro body pasted into each host context
+	hosts := [][]c06Tok{}
+	mk := func(names ...string) []c06Tok {
+		var out []c06Tok
+		for _, n := range names {
+			if n == "PASTE!" {
+				out = append(out, c06Tok{K: -2})
+				continue
+			}
+			if n == ")" {
+				out = append(out, c06Tok{K: -1})
+				continue
+			}
+			x := strings.HasSuffix(n, "(")
+			out = append(out, c06Tok{K: kindIdx(strings.TrimSuffix(n, "(")), X: x})
+		}
+		return out
+	}
+	hosts = append(hosts, mk("PASTE!"), mk("PASTE!", "TYPE"), mk("URL", "PASTE!"), mk("URL", "PASTE!", "GET"), mk("URL(", "PASTE!", ")", "TYPE"),
+		mk("URL", "GET", "PASTE!"), mk("URL", "GET", "PASTE!", "200"), mk("GETp", "200", "PASTE!"), mk("GETp", "Request", "PASTE!", "200"),
+		mk("INFO", "PASTE!"), mk("SERVER", "PASTE!"), mk("URL", "GET(", "PASTE!", ")", "Tags"), mk("URL", "GET", "200", "POST(", "PASTE!", ")", "Tags"),
+		mk("GETp(", "200(", "PASTE!", ")", "PASTE!", ")"))
+	pasteLen := h.Pick(2, 3)
+	vlib.Enum(h, "paste-pass-exhaustive", true, func(yield func(c06Paste) bool) {
+		idx := 0
+		var rec func(cur []c06Tok, depth int, host []c06Tok) bool
+		rec = func(cur []c06Tok, depth int, host []c06Tok) bool {
+			if len(cur) > 0 {
+				if h.Mine(idx) {
+					if !yield(c06Paste{Host: host, Body: append([]c06Tok{}, cur...)}) {
+						return false
+					}
+				}
+				idx++
+			}
+			if depth == 0 {
+				return true
+			}
+			for _, tk := range alpha {
+				if tk.K >= 0 && (c06Kinds[tk.K].name == "MACRO" || c06Kinds[tk.K].name == "JSIGHT" || c06Kinds[tk.K].name == "PASTE") {
+					continue
+				}
+				if !rec(append(cur, tk), depth-1, host) {
+					return false
+				}
+			}
+			return true
+		}
+		for _, host := range hosts {
+			if !rec(nil, pasteLen, host) {
+				return
+			}
+		}
+	}, c06PasteCheck)
 
 	vlib.Rapid(h, "kind-sequences-random", h.N(20000, 1500000), func(t *rapid.T) []c06Tok {
 		n := rapid.IntRange(1, 25).Draw(t, "n")
